@@ -471,19 +471,21 @@ fn check_type_relation<T: TypeLookup>(
                 return false;
             }
 
-            // All fields in pattern must exist in self with compatible types
+            // Assignability: all fields in pattern must exist in self with compatible types.
+            // Overlap: a field self does not mention is unconstrained there, so only the fields
+            // both mention have to overlap.
             fields2.iter().all(|(fname2, ftype2)| {
-                fields1.iter().any(|(fname1, ftype1)| {
-                    fname1 == fname2
-                        && check_type_relation(
-                            *ftype1,
-                            *ftype2,
-                            lookup,
-                            mode,
-                            assumptions,
-                            type_stack,
-                        )
-                })
+                match fields1.iter().find(|(fname1, _)| fname1 == fname2) {
+                    Some((_, ftype1)) => check_type_relation(
+                        *ftype1,
+                        *ftype2,
+                        lookup,
+                        mode,
+                        assumptions,
+                        type_stack,
+                    ),
+                    None => matches!(mode, UnionMode::Any),
+                }
             })
         }
 
